@@ -880,6 +880,12 @@ func (t *tokenizer) skipSingleLineComment() error {
 // SkipBlockComment skips over the body of a block comment, terminated
 // by a '*/' sequence.
 func (t *tokenizer) skipBlockComment() error {
+	// Consume the '*' that opened the comment, so it cannot double as the
+	// start of the closing "*/".
+	if _, err := t.read(); err != nil {
+		return err
+	}
+
 	star := false
 	for {
 		c, err := t.read()
